@@ -508,6 +508,8 @@ func judge(out *reg.Out, q *tn.Query, loc, rem []int, p Params, base, pr *runOut
 			return "stale-response-after-resume"
 		}
 		if p.Side == 0 && busy {
+			// repaired in /repo 0bfe189 (known_findings.json: fixed): not a known class any more,
+			// a failure of this shape is a VIOLATION
 			return "resume-overtakes-cancel"
 		}
 		if known != "" {
